@@ -284,6 +284,8 @@ def _i2s(prop, out, m, e):
         fam = w.split(".")[0]
         if w == "panic":
             viol.append(w)
+        elif ".mem" in w and prop != "C16":
+            drift.append(w)
         elif prop == "C15":
             if fam in ("ser", "len", "bigser", "rep", "big"):
                 ok = True
@@ -439,7 +441,7 @@ def check(prop, tier, seed):
 
     # coverage sanity: every class the property talks about was exercised
     need = {"C15": ["ser", "len", "de", "canon", "reser", "big", "bigser", "rep"],
-            "C16": ["de:ok", "de:err", "de:fe", "triples", "hash", "canon:true", "canon:false"],
+            "C16": ["de:ok", "de:err", "de:fe", "triples", "hash", "canon:true", "canon:false", "lenb"],
             "C29": ["limit@cons-marker", "limit@atom-prefix", "limit@atom-body", "limit@backref-marker", "limit@fits"]}[prop]
     missing = [k for k in need if not cov.get(k)]
     if missing:
@@ -518,6 +520,14 @@ def selftest():
         corrupted = []
         for i, e in enumerate(evs):
             ev = e["ev"]
+            if ev == "canon" and "canon" in done and "canon#mem" not in done and mix == "C16":
+                # the recorded allocation figures are checked too
+                e2 = json.loads(json.dumps(e))
+                e2["mem"]["req"] = 1 << 29
+                evs[i] = e2
+                done.add("canon#mem")
+                corrupted.append((i + 1, "canon_mem"))
+                continue
             if ev in done:
                 continue
             e2 = json.loads(json.dumps(e))
